@@ -3,8 +3,8 @@ package c08
 import (
 	"bytes"
 	"fmt"
+	"verifharness/dirtysw"
 
-	"github.com/Eyevinn/mp4ff/bits"
 	"github.com/Eyevinn/mp4ff/mp4"
 
 	"verifharness/ref/boxwalk"
@@ -37,7 +37,7 @@ func (s *state) encodeFile(f *mp4.File, sw bool, slack int) encOut {
 		o.out = w.Bytes()
 	} else {
 		o.pi = s.c.Guard(func() {
-			w := bits.NewFixedSliceWriter(int(f.Size()) + slack)
+			w := dirtysw.New(int(f.Size()) + slack)
 			o.err = f.EncodeSW(w)
 			o.out = w.Bytes()
 		})
@@ -191,12 +191,12 @@ func (s *state) checkEncodes(fm, fl *mp4.File, frag bool) {
 		}
 		var sm, sl []byte
 		p1 = c.Guard(func() {
-			w := bits.NewFixedSliceWriter(int(bm.Size()))
+			w := dirtysw.New(int(bm.Size()))
 			e1 = bm.EncodeSW(w)
 			sm = w.Bytes()
 		})
 		p2 = c.Guard(func() {
-			w := bits.NewFixedSliceWriter(int(bl.Size()))
+			w := dirtysw.New(int(bl.Size()))
 			e2 = bl.EncodeSW(w)
 			sl = w.Bytes()
 		})
